@@ -6,27 +6,6 @@ import PgmVerif.Proofs.Closure
 namespace PgmVerif
 open DG
 
-/-- a graph whose edges stay inside its node list -/
-def DG.WFG (g : DG) : Prop := ∀ e ∈ g.edges, e.1 ∈ g.nodes ∧ e.2 ∈ g.nodes
-
-theorem DG.mem_parents (g : DG) (u v : Var) : u ∈ g.parents v ↔ (u, v) ∈ g.edges := by
-  unfold DG.parents
-  simp only [List.mem_map, List.mem_filter]
-  constructor
-  · rintro ⟨e, ⟨he, h2⟩, rfl⟩
-    have : e.2 = v := by simpa using h2
-    rw [← this]; exact he
-  · intro h; exact ⟨(u, v), ⟨h, by simp⟩, rfl⟩
-
-theorem DG.mem_children (g : DG) (u v : Var) : v ∈ g.children u ↔ (u, v) ∈ g.edges := by
-  unfold DG.children
-  simp only [List.mem_map, List.mem_filter]
-  constructor
-  · rintro ⟨e, ⟨he, h2⟩, rfl⟩
-    have : e.1 = u := by simpa using h2
-    rw [← this]; exact he
-  · intro h; exact ⟨(u, v), ⟨h, by simp⟩, rfl⟩
-
 theorem C08_saturate_closed {α : Type} [DecidableEq α] (next : List α → List α) (U : List α)
     (hU : ∀ S, (∀ x, x ∈ S → x ∈ U) → ∀ x, x ∈ next S → x ∈ U)
     (fuel : Nat) (S : List α) (hS : ∀ x, x ∈ S → x ∈ U) (hf : U.length ≤ fuel) :
